@@ -50,7 +50,9 @@ CLAIMED = {
         "file reads the in-memory value; strings, flags, dictionaries and colour/value maps are concrete (evaluated "
         "directly). Attribute pairs are assigned in both orders; every pair is also assigned in a later session (entity "
         "re-read from the file first); drillholes and data inside a drillhole group (concatenated storage) are in the table; "
-        "the re-read entity is compared on every mapped attribute and array field, a failing re-open is a failed read-back.",
+        "the re-read entity is compared on every mapped attribute and array field, a failing re-open is a failed read-back; for "
+        "numeric attributes the getter must show the value assigned (z3 finds e.g. the zero a falsy test ignores); read-modify-write "
+        "through the getter's array and infinite values are in the table.",
         _SYMX_NOTE + "; A-H5: symbolic payloads are kept beside the real HDF5 file by a proxy and handed back unchanged; "
         "seam C: instance-level recording wrapper around Workspace.update_attribute",
     ),
@@ -66,7 +68,8 @@ CLAIMED = {
         "enumerated within stated bounds. The same steps also run against the real file (update / remove data / remove "
         "hole, optionally after a re-open, then re-open and compare every hole), and a drillhole group copied into "
         "another workspace is edited with source and copy both re-read (no shared state); new depth and interval tables with "
-        "symbolic depths are added to a hole in a later session and read back row by row.",
+        "symbolic depths are added to a hole in a later session and read back row by row; a rename-only session; a column of "
+        "symbolic values pushed through the group-wide table view.",
     ),
     "C16": _symx(
         "C16",
@@ -90,7 +93,8 @@ CLAIMED = {
         "formula and centre position (polynomial identities over uninterpreted cos/sin), the centre count with and "
         "without explicit origin and cache invalidation after geometry setters; Curve parts->cells->parts is "
         "explored for all labelings of <=6 vertices, parts after cell removal and Grid2D.vertical with a warm centroid "
-        "cache are included. Default octree tiling is evaluated concretely for all {1,2,4}^3 base shapes.",
+        "cache are included. Default octree tiling is evaluated concretely for all {1,2,4}^3 base shapes; octree records given among "
+        "the creation arguments (any order) are kept; truthy non-bool vertical flags.",
     ),
     "C13": _symx(
         "C13",
@@ -118,7 +122,7 @@ CLAIMED = {
         "match_values / merge_arrays on unsorted heads; and for depth logs (two logs, any order, collocated or not) and "
         "interval logs (one or two) added to a deviated hole: every vertex sits at desurvey(its depth), every cell joins "
         "the positions of its from/to depths, each value stays attached to its depth / interval; mixed sequences of up to "
-        "three depth / interval logs in every order, also with tolerance zero.",
+        "three depth / interval logs in every order, also with tolerance zero; survey tables with a station repeated at the same depth.",
     ),
     "C08": _symx(
         "C08",
@@ -131,7 +135,8 @@ CLAIMED = {
         "that the stored dataset holds the value / the no-data code, and that a fresh Workspace on the same file "
         "reads back what was written (NaN as NaN, integer gaps as the integer no-data code). Value maps (symbolic integer keys; "
         "an alphabet of float / numpy / negative keys) and metadata values of 16 Python / numpy kinds are read back equal or "
-        "refused (values concrete, choice symbolic). Text and blobs are outside the claim.",
+        "refused (values concrete, choice symbolic); float input of every numpy float dtype incl. half and long double; comments added "
+        "one after another. Text and blobs are outside the claim.",
         _SYMX_NOTE + "; A-H5: datasets with symbolic content are kept beside the real HDF5 file by a proxy and handed "
         "back unchanged (h5py's own conversions are only exercised for concrete payloads)",
     ),
@@ -145,7 +150,8 @@ CLAIMED = {
         "indices, data values and removal indices, and z3 proves per path that survivors keep coordinates and "
         "values, cells stay in range and connect the same coordinates, padding/refusal rules hold, and a failed "
         "call leaves geometry and data consistent; text, integer and boolean children follow the same survivors; masked "
-        "copies of data; removal on a stored object followed by cache clearing and re-open. Holds within the bounds only.",
+        "copies of data; removal on a stored object followed by cache clearing and re-open; numpy-style negative indices; infinite "
+        "values. Holds within the bounds only.",
         "level_note": "trusted: the symx numpy model (validated on every run by replaying a model of each explored "
         "path on real numpy and comparing outcome, obligations and observed arrays), floats as reals, seam A "
         "(HDF5 write cut by an instance-level no-op), z3",
@@ -364,7 +370,9 @@ CLAIMED["C06"] = {
     "owner, same-workspace copies get fresh identifiers, cross-workspace copies keep free ones, one type per class; "
     "data and property-group identifiers (given as UUID or text) reused on the same or another object are refused and "
     "leave the children unchanged; the file re-opens after a refusal; an identifier released by removal (references dropped, "
-    "collected) can be given to an entity of any kind and is then looked up to its new owner; a moved entity keeps its identifier.",
+    "collected) can be given to an entity of any kind and is then looked up to its new owner (also the identifiers of the removed "
+    "object's children, live and after a re-open); a moved entity keeps its identifier; property-group requests through create "
+    "and find_or_create.",
     "level_note": _XH_NOTE + "; the workspace-level part runs the real Workspace on real h5py and only the switches are symbolic",
     "design_ref": "DESIGN.md section 5, C06",
 }
